@@ -267,6 +267,11 @@ def check_kepler(case):
     for route, get in (("iter(dates=[date])", lambda: list(orb.iter(dates=[date]))[-1]),
                        ("iter(stop=date, step=dt)", lambda: list(orb.iter(stop=date, step=timedelta(microseconds=case["dt_us"])))[-1]
                         if case["dt_us"] else res),
+                       # a grid that does not begin at the orbit's epoch: from the intermediate date of step 3 to the date
+                       ("iter(start=epoch+t1, stop=date, step=dt-t1)",
+                        lambda: list(orb.iter(start=mkdate(case["epoch_us"] + t1_us), stop=date,
+                                              step=timedelta(microseconds=case["dt_us"] - t1_us)))[-1]
+                        if case["dt_us"] != t1_us else res),
                        ("ephem(stop=date, step=dt)", lambda: list(orb.ephem(stop=date, step=timedelta(microseconds=case["dt_us"])))[-1 if case["dt_us"] > 0 else 0]
                         if case["dt_us"] else res)):  # (an Ephem keeps its points sorted by date)
         alt = get()
